@@ -113,9 +113,10 @@ namespace c12
       static constexpr bool enable = true;
    };
    // a control with effects: failure of a named rule that has an error message raises (must_if)
+   struct with_msg {};      // marker: this rule always has a message in the must_if error table
    struct errs
    {
-      template< typename R > static constexpr const char* message = ( vh::is_named< R > && ( fnv( demangle< R >() ) % 3u == 0 ) ) ? "c12 named rule failed" : nullptr;
+      template< typename R > static constexpr const char* message = ( std::is_base_of_v< with_msg, R > || ( vh::is_named< R > && ( fnv( demangle< R >() ) % 3u == 0 ) ) ) ? "c12 named rule failed" : nullptr;
    };
    template< typename R >
    struct ctl_mi : must_if< errs, ctl_in, false >::control< R >
@@ -304,8 +305,28 @@ namespace c12
          within = contained( *t, 0, s.size() ) ? 1 : 0;
          return std::string( "T" );
       } );
+      std::string r1x = r1;
+      if constexpr( std::is_same_v< Ctl< G >, ctl_mi< G > > ) {
+         // the same run with the library's must_if control over `normal` (no observer in between: success() is noexcept, failure()
+         // throws): result and tree must be the same as with the observing control
+         std::string tree2 = "-";
+         std::string log2;
+         const std::string r2 = guarded( log2, [ & ]() {
+            memory_input<> in( buf, buf + s.size(), "s" );
+            const auto t = pt::parse< G, pt::node, Sel, Act, must_if< errs, normal, false >::template control >( in );
+            if( !t ) {
+               return std::string( "N" );
+            }
+            tree2.clear();
+            ptree( tree2, *t );
+            return std::string( "T" );
+         } );
+         if( ( r2.substr( 0, 1 ) != r1.substr( 0, 1 ) ) || ( tree2 != tree ) ) {
+            r1x += "!PLAIN-MUST_IF-CONTROL-DIFFERS:" + r2.substr( 0, 1 ) + ":" + tree2;
+         }
+      }
       delete[] buf;
-      std::printf( "PT %d %d %s %s %s %d | %s | %s | %s\n", gid, root, sel.c_str(), act.c_str(), vh::hex( s ).c_str(), within, r1.c_str(), tree.c_str(), log1.c_str() );
+      std::printf( "PT %d %d %s %s %s %d | %s | %s | %s\n", gid, root, sel.c_str(), act.c_str(), vh::hex( s ).c_str(), within, r1x.c_str(), tree.c_str(), log1.c_str() );
    }
    // (2) the plain parse, (3) the plain parse with every rule control-enabled; sel = "-"
    template< typename G, template< typename... > class Act, template< typename... > class Ctl, template< typename... > class CtlAll >
